@@ -581,27 +581,39 @@ UnsatCases ==
 (* points visited.  Coordinates in user units (the harness scales).        *)
 (***************************************************************************)
 PathCmds == {<<"m", 6, 0>>, <<"M", 10, 9>>, <<"l", 3, -2>>, <<"L", 0, 8>>, <<"h", 5, 0>>, <<"H", -3, 0>>, <<"v", 4, 0>>, <<"V", 1, 0>>,
-             <<"z", 0, 0>>, <<"Z", 0, 0>>, <<"l", -4, -5>>}
+             <<"z", 0, 0>>, <<"Z", 0, 0>>, <<"l", -4, -5>>,
+             \* bearing commands (SVG 2 CR 2016, brought back by svgdx): B sets the bearing, b adds to
+             \* it; relative l / m / h / v are then taken along the bearing.  Quarter turns only
+             \* (exact); the formulas are the CR's: l, m: (x cos + y sin, x sin + y cos),
+             \* h: (x cos, x sin), v: (y sin, y cos)
+             <<"B", 90, 0>>, <<"b", 90, 0>>, <<"b", -90, 0>>}
 IsMove(k) == k[1] \in {"M", "m"}
 IsClose(k) == k[1] \in {"z", "Z"}
+IsBearing(k) == k[1] \in {"B", "b"}
+Cos(d) == CASE d = 0 -> 1 [] d = 180 -> -1 [] OTHER -> 0
+Sin(d) == CASE d = 90 -> 1 [] d = 270 -> -1 [] OTHER -> 0
 PathStep(st, k) ==
     LET cur == st.cur
-        nxt == CASE k[1] = "M" -> <<k[2], k[3]>> [] k[1] = "m" -> <<cur[1] + k[2], cur[2] + k[3]>>
-                 [] k[1] = "L" -> <<k[2], k[3]>> [] k[1] = "l" -> <<cur[1] + k[2], cur[2] + k[3]>>
-                 [] k[1] = "H" -> <<k[2], cur[2]>> [] k[1] = "h" -> <<cur[1] + k[2], cur[2]>>
-                 [] k[1] = "V" -> <<cur[1], k[2]>> [] k[1] = "v" -> <<cur[1], cur[2] + k[2]>>
+        co == Cos(st.brg)  si == Sin(st.brg)
+        nxt == CASE k[1] = "M" -> <<k[2], k[3]>>
+                 [] k[1] \in {"m", "l"} -> <<cur[1] + k[2] * co + k[3] * si, cur[2] + k[2] * si + k[3] * co>>
+                 [] k[1] = "L" -> <<k[2], k[3]>>
+                 [] k[1] = "H" -> <<k[2], cur[2]>> [] k[1] = "h" -> <<cur[1] + k[2] * co, cur[2] + k[2] * si>>
+                 [] k[1] = "V" -> <<cur[1], k[2]>> [] k[1] = "v" -> <<cur[1] + k[2] * si, cur[2] + k[2] * co>>
+                 [] IsBearing(k) -> cur
                  [] OTHER -> st.start
-    IN [cur |-> nxt, start |-> IF IsMove(k) THEN nxt ELSE st.start, pts |-> st.pts \cup {nxt}]
+    IN [cur |-> nxt, start |-> IF IsMove(k) THEN nxt ELSE st.start, pts |-> st.pts \cup {nxt},
+        brg |-> CASE k[1] = "B" -> k[2] % 360 [] k[1] = "b" -> (st.brg + k[2] + 360) % 360 [] OTHER -> st.brg]
 RECURSIVE PathRun(_, _)
 PathRun(st, ks) == IF ks = <<>> THEN st ELSE PathRun(PathStep(st, Head(ks)), Tail(ks))
 PathStart == <<2, 3>>
 PathBoxOf(ks) ==
-    LET st == PathRun([cur |-> PathStart, start |-> PathStart, pts |-> {PathStart}], ks)
+    LET st == PathRun([cur |-> PathStart, start |-> PathStart, pts |-> {PathStart}, brg |-> 0], ks)
     IN B(CHOOSE x \in {p[1] : p \in st.pts} : \A p \in st.pts : x <= p[1], CHOOSE y \in {p[2] : p \in st.pts} : \A p \in st.pts : y <= p[2],
          CHOOSE x \in {p[1] : p \in st.pts} : \A p \in st.pts : x >= p[1], CHOOSE y \in {p[2] : p \in st.pts} : \A p \in st.pts : y >= p[2])
 \* a moveto that draws nothing (followed by another moveto, a closepath or the end) is left
 \* out: whether such a point belongs to the box is not stated anywhere
-PathOK(ks) == \A i \in 1..Len(ks) : IsMove(ks[i]) => (i < Len(ks) /\ ~IsMove(ks[i + 1]) /\ ~IsClose(ks[i + 1]))
+PathOK(ks) == \A i \in 1..Len(ks) : IsMove(ks[i]) => (i < Len(ks) /\ ~IsMove(ks[i + 1]) /\ ~IsClose(ks[i + 1]) /\ ~IsBearing(ks[i + 1]))
 PathSeqs == UNION {[1..k -> PathCmds] : k \in 1..(IF Tier = "quick" THEN 3 ELSE 4)}
 PathBoxCases ==
     {[fam |-> "pathbox", cmds |-> ks, box |-> PathBoxOf(ks)] : ks \in {s \in PathSeqs : PathOK(s) /\ ~IsClose(s[1])}}
